@@ -57,6 +57,7 @@ func unitCmd(args []string) {
 	frame := fs.Bool("frame", true, "")
 	cover := fs.Bool("cover", false, "")
 	assertsOnly := fs.Bool("assertsonly", false, "")
+	assumePre := fs.Bool("assumepre", false, "callee preconditions are assumed, not proved")
 	groups := fs.String("groups", "", "clause groups to keep (comma separated labels)")
 	assumeG := fs.String("assume", "", "clause groups assumed here, proved elsewhere (comma separated labels)")
 	locks := fs.Bool("locks", false, "track lock state and check guard directives (C20)")
@@ -91,7 +92,7 @@ func unitCmd(args []string) {
 		if *assumeG != "" {
 			ags = strings.Split(*assumeG, ",")
 		}
-		u, err := e.VerifyFunc(name, vc.UnitOpts{NoPanic: *nopanic, Post: *post, Frame: *frame, Cover: *cover, AssertsOnly: *assertsOnly, Groups: gs, AssumeGroups: ags})
+		u, err := e.VerifyFunc(name, vc.UnitOpts{NoPanic: *nopanic, Post: *post, Frame: *frame, Cover: *cover, AssertsOnly: *assertsOnly, AssumePre: *assumePre, Groups: gs, AssumeGroups: ags})
 		if err != nil {
 			fmt.Println("ENGINE-ERROR", err)
 			bad++
